@@ -61,6 +61,9 @@ def run(chk):
       raise AnalysisError('%s has no return' % fq)
     for r in rets:
       fresh = isinstance(r.value, ast.Call) and call_tail(r.value) == 'deepcopy'
+      if isinstance(r.value, (ast.List, ast.Dict)) and not (
+          r.value.elts if isinstance(r.value, ast.List) else r.value.keys):
+        fresh = True         # a new empty container shares nothing
       if isinstance(r.value, ast.Name):
         # returning the still empty accumulator is fine
         defs = [x.value for x in walk_local(fi.node) if isinstance(x, ast.Assign)
@@ -82,7 +85,13 @@ def run(chk):
     if isinstance(s, ast.Call):
       ok_src = ok_src and 'functors.Functors.AllRulesOf' in repo.resolve(v.fi, s)
     elif isinstance(s, ast.ListComp):
-      ok_src = ok_src and all(dotted(g.iter) == 'rules' for g in s.generators)
+      ok_src = ok_src and all(
+          dotted(g.iter) == 'rules' or (
+              isinstance(g.iter, ast.Call) and
+              'functors.Functors.AllRulesOf' in repo.resolve(v.fi, g.iter))
+          for g in s.generators) and isinstance(s.elt, ast.Name) and \
+          s.elt.id in {t.id for g in s.generators for t in ast.walk(g.target)
+                       if isinstance(t, ast.Name)}
     elif isinstance(s, ast.Name):
       # rules_to_update: filled only with elements of `rules`
       apps = [c for n, c in v.all_calls() if call_tail(c) == 'append' and receiver(c) == s.id]
